@@ -1,9 +1,9 @@
 package props
 
 import (
-	yaml3 "gopkg.in/yaml.v3"
 	"encoding/json"
 	"fmt"
+	yaml3 "gopkg.in/yaml.v3"
 	"sort"
 	"strings"
 	"sync"
@@ -698,7 +698,10 @@ func C12(e *core.Env) {
 }
 
 // withLexical adds AMF-style lexical source maps (one entry per node) and source information to the graph.
-func withLexical(g Graph) string {
+func withLexical(g Graph) string { return withLexicalOpt(g, true) }
+
+// withLexicalOpt: lexical source maps, with or without the BaseUnitSourceInformation node.
+func withLexicalOpt(g Graph, info bool) string {
 	nodes := []any{}
 	var doc map[string]any
 	json.Unmarshal([]byte(g.JSONLD()), &doc)
@@ -715,8 +718,10 @@ func withLexical(g Graph) string {
 			map[string]any{"@id": smID, "@type": []any{sm + "SourceMap"}, sm + "lexical": []any{map[string]any{"@id": lexID}}},
 			map[string]any{"@id": lexID, sm + "element": n.ID, sm + "value": fmt.Sprintf("[(%d,%d)-(%d,%d)]", i+1, 0, i+2, 10+i)})
 	}
-	nodes = append(nodes, map[string]any{"@id": DataNS + "root/BaseUnitSourceInformation", "@type": []any{dc + "BaseUnitSourceInformation"},
-		dc + "rootLocation": "file:///root.raml"})
+	if info {
+		nodes = append(nodes, map[string]any{"@id": DataNS + "root/BaseUnitSourceInformation", "@type": []any{dc + "BaseUnitSourceInformation"},
+			dc + "rootLocation": "file:///root.raml"})
+	}
 	out, _ := json.Marshal(map[string]any{"@graph": nodes})
 	return string(out)
 }
